@@ -76,6 +76,7 @@ class Check:
         self.samples = []
         self.runs = []             # per stage summaries
         self.violations = []       # confirmed
+        self.unreproduced = []     # rejections that re-execution did not reproduce (no verdict)
         self.known = []            # KNOWN-FINDING lines printed
         self.drift = []
         self.assumptions = []
@@ -363,8 +364,13 @@ class Check:
             print("VIOLATION property=%s replay=%s" % (self.pid, path), flush=True)
             log("[%s] %s" % (self.pid, why))
         else:
-            raise ToolError("%s: rejection of %s case %s not reproduced on re-execution (%s)"
-                            % (label, driver, ev.get("case"), why))
+            # not a verdict. The rest of the trace is still checked (a later, solid rejection is not hidden by a
+            # flaky earlier one); if nothing is confirmed in the end, the check stops with exit 2.
+            msg = "%s: rejection of %s case %s not reproduced on re-execution (%s)" % (label, driver, ev.get("case"), why)
+            log("[%s] %s" % (self.pid, msg))
+            self.unreproduced.append(msg)
+            if len(self.unreproduced) > 5:
+                raise ToolError(msg + " - and %d more" % (len(self.unreproduced) - 1))
 
     def replay_record(self, label, driver, dargs, module, cfg, inv, ev, driver_env=None, prefix=False):
         dargs = [str(a) for a in dargs]
